@@ -169,7 +169,7 @@ mod party_sim {
     }
 
     /// C02: static per-party knowledge analysis of the real compiled graph
-    fn knowledge(g: &Graph, owners: &[IOStatus], outs: &[u64]) -> Result<Vec<String>> {
+    pub fn knowledge(g: &Graph, owners: &[IOStatus], outs: &[u64]) -> Result<Vec<String>> {
         let mut v = vec![];
         let mut ks: Vec<K> = vec![];
         let mut input_id = 0;
@@ -187,8 +187,13 @@ mod party_sim {
                     k
                 }
                 Operation::Random(_) => K::Leaf([true; 3], true),
-                Operation::CreateTuple => K::Tup(deps),
+                Operation::CreateTuple | Operation::CreateNamedTuple(_) | Operation::CreateVector(_) => K::Tup(deps),
                 Operation::TupleGet(i) => match &deps[0] { K::Tup(t) => t[i as usize].clone(), o => o.clone() },
+                Operation::NamedTupleGet(name) => match &deps[0] {
+                    K::Tup(t) => { let dt = node.get_node_dependencies()[0].get_type()?;
+                        let idx = if let Type::NamedTuple(fields) = dt { fields.iter().position(|(n, _)| *n == name) } else { None };
+                        match idx { Some(i) if i < t.len() => t[i].clone(), _ => deps[0].clone() } }
+                    o => o.clone() },
                 Operation::NOP => match send {
                     Some((s, r)) => match deps[0].send(s, r) {
                         Ok(k) => k,
@@ -199,6 +204,14 @@ mod party_sim {
                 _ => { let mut h = [true; 3]; let mut l = false; for d in &deps { let dh = d.holders(); l |= d.local(); for i in 0..3 { h[i] &= dh[i]; } } K::Leaf(h, l) }
             };
             ks.push(k);
+        }
+        if let Ok(tr) = std::env::var("REPLAY_TRACE") {
+            // developer aid: print the ancestry of a node with ops and holders
+            let mut todo = vec![tr.parse::<u64>().unwrap_or(0)]; let mut seen = std::collections::BTreeSet::new(); let mut shown = 0;
+            while let Some(id) = todo.pop() { if !seen.insert(id) || shown > 60 { continue; } shown += 1;
+                let n = &g.get_nodes()[id as usize];
+                eprintln!("node {} {} ann={:?} holders={:?} local={} deps={:?}", id, n.get_operation(), n.get_annotations()?, ks[id as usize].holders(), ks[id as usize].local(), n.get_node_dependencies().iter().map(|d| d.get_id()).collect::<Vec<_>>());
+                for d in n.get_node_dependencies() { if ks[d.get_id() as usize].holders() != [true; 3] { todo.push(d.get_id()); } } }
         }
         let out = g.get_output_node()?;
         let ko = ks[out.get_id() as usize].clone();
@@ -751,6 +764,40 @@ fn private_permutation() -> serde_json::Value {
     json!({"found": false, "routine": "private_permutation", "tried": tried})
 }
 
+// C02 on the compiled Join (PSI) protocol: per-party knowledge analysis of the real compiled graph
+fn psi_knowledge() -> serde_json::Value {
+    use ciphercore_base::graphs::util::simple_context;
+    use ciphercore_base::graphs::JoinType;
+    use ciphercore_base::mpc::mpc_compiler::IOStatus;
+    use ciphercore_base::type_inference::NULL_HEADER;
+    use std::collections::HashMap;
+    let t1 = named_tuple_type(vec![(NULL_HEADER.to_owned(), array_type(vec![4], BIT)), ("ID".to_owned(), array_type(vec![4], INT32)), ("A".to_owned(), array_type(vec![4], INT32))]);
+    let t2 = named_tuple_type(vec![(NULL_HEADER.to_owned(), array_type(vec![3], BIT)), ("ID".to_owned(), array_type(vec![3], INT32)), ("B".to_owned(), array_type(vec![3], INT32))]);
+    let mut tried = 0;
+    for jt in [JoinType::Inner, JoinType::Left, JoinType::Union, JoinType::Full] {
+        for (o0, o1) in [(IOStatus::Party(0), IOStatus::Party(1)), (IOStatus::Party(1), IOStatus::Public), (IOStatus::Shared, IOStatus::Party(2))] {
+            for outs in [vec![], vec![0u64], vec![2u64, 1]] {
+                tried += 1;
+                let jt2 = jt.clone();
+                let r = catch_unwind(AssertUnwindSafe(|| -> Result<Vec<String>> {
+                    let c = simple_context(|g| { let a = g.input(t1.clone())?; let b = g.input(t2.clone())?; a.join(b, jt2.clone(), HashMap::from([("ID".to_owned(), "ID".to_owned())])) })?;
+                    let owners = vec![o0.clone(), o1.clone()];
+                    let (_keep, g) = compile_simple(&c, owners.clone(), outs.iter().map(|p| IOStatus::Party(*p)).collect())?;
+                    party_sim::knowledge(&g, &owners, &outs)
+                }));
+                match r {
+                    Ok(Ok(v)) if v.is_empty() => {}
+                    Ok(Ok(v)) => return json!({"found": true, "routine": "psi_knowledge", "property": "C02", "input": {"graph": format!("join({:?}) of a 4-row and a 3-row table on ID", jt), "owners": format!("[{:?}, {:?}]", o0, o1), "output_parties": outs},
+                        "observed": v.iter().take(6).collect::<Vec<_>>(), "n_problems": v.len(), "expected": "every Send sender holds the value; every share slot of a shared output is held by parties i and i-1", "what": "per-party knowledge analysis of the graph produced by prepare_for_mpc_evaluation"}),
+                    Ok(Err(e)) => return json!({"found": false, "routine": "psi_knowledge", "error": e.to_string()}),
+                    Err(_) => return json!({"found": false, "routine": "psi_knowledge", "error": "panic"}),
+                }
+            }
+        }
+    }
+    json!({"found": false, "routine": "psi_knowledge", "tried": tried})
+}
+
 // C14: per-party shares reconstruct the secret, for scalars, arrays (incl. bits and 128-bit) and nested containers
 fn share_roundtrip(seed: u64) -> serde_json::Value {
     use ciphercore_base::random::PRNG;
@@ -804,6 +851,7 @@ fn main() {
         Some("arith_kernels") => arith_kernels(seed),
         Some("cmp_small_widths") => cmp_small_widths(seed),
         Some("share_roundtrip") => share_roundtrip(seed),
+        Some("psi_knowledge") => psi_knowledge(),
         Some("private_permutation") => private_permutation(),
         Some("structural_wide") => structural_wide(seed),
         Some("truncate_compiled") => truncate_compiled(seed),
